@@ -215,6 +215,15 @@ def single_defs(fn_node: ast.AST) -> dict[str, ast.expr]:
         elif isinstance(n, ast.ExceptHandler) and n.name:
             counts[n.name] = counts.get(n.name, 0) + 2
         for t in tgts:
+            # `a, b = x, y` binds element-wise (no starred element on either side)
+            if isinstance(n, ast.Assign) and isinstance(t, (ast.Tuple, ast.List)) and isinstance(val, (ast.Tuple, ast.List)) and len(t.elts) == len(val.elts) and not any(isinstance(z, ast.Starred) for z in list(t.elts) + list(val.elts)) and all(isinstance(z, ast.Name) for z in t.elts):
+                bound = {z.id for z in t.elts}  # type: ignore[union-attr]
+                reads_bound = any(isinstance(y, ast.Name) and y.id in bound for v0 in val.elts for y in ast.walk(v0))
+                for z, v0 in zip(t.elts, val.elts):
+                    counts[z.id] = counts.get(z.id, 0) + (2 if reads_bound else 1)  # type: ignore[union-attr]
+                    if not reads_bound:
+                        defs[z.id] = v0  # type: ignore[union-attr]
+                continue
             for x in ast.walk(t):
                 if isinstance(x, ast.Name) and isinstance(x.ctx, (ast.Store, ast.Del)):
                     plain = isinstance(n, (ast.Assign, ast.AnnAssign)) and t is x and val is not None
@@ -437,7 +446,32 @@ def inline_calls(ctx: Ctx, f: FuncInfo, e: ast.AST, depth: int = 2) -> ast.AST:
         stmts = [s for s in c.node.body if not (isinstance(s, ast.Expr) and isinstance(s.value, ast.Constant))]
         if len(stmts) == 1 and isinstance(stmts[0], ast.Return) and stmts[0].value is not None and not c.is_async:
             return stmts[0].value
-        return None
+        # a boolean decision list: `if t1: return X1` ... `return Y` (each if-body a lone return) is the formula
+        # (t1 and X1) or (not t1 and t2 and X2) or ... or (not t1 and ... and Y); constant True/False arms are simplified away
+        if c.is_async or not stmts or not isinstance(stmts[-1], ast.Return) or stmts[-1].value is None:
+            return None
+        if not all(isinstance(s_, ast.If) and not s_.orelse and len(s_.body) == 1 and isinstance(s_.body[0], ast.Return) and s_.body[0].value is not None for s_ in stmts[:-1]):
+            return None
+        terms: list[ast.expr] = []
+        negs: list[ast.expr] = []
+        arms = [(s_.test, s_.body[0].value) for s_ in stmts[:-1]] + [(None, stmts[-1].value)]  # type: ignore[union-attr]
+        for t, x in arms:
+            conj = list(negs) + ([t] if t is not None else [])
+            if isinstance(x, ast.Constant) and x.value is False:
+                pass
+            elif isinstance(x, ast.Constant) and x.value is True:
+                if not conj:
+                    return None
+                terms.append(conj[0] if len(conj) == 1 else ast.BoolOp(op=ast.And(), values=conj))
+            elif isinstance(x, ast.Constant):
+                return None  # not a predicate
+            else:
+                terms.append(ast.BoolOp(op=ast.And(), values=conj + [x]) if conj else x)
+            if t is not None:
+                negs.append(ast.UnaryOp(op=ast.Not(), operand=t))
+        if not terms:
+            return None
+        return terms[0] if len(terms) == 1 else ast.BoolOp(op=ast.Or(), values=terms)
 
     def clone(node, subst, d):
         if isinstance(node, ast.Name) and node.id in subst:
@@ -740,3 +774,71 @@ def undefined_locals_rule(ctx: Ctx, rr: RuleResult, funcs: Iterable[FuncInfo], w
         else:
             rr.fail(f"{f.short}:unbound-local:{name}", f"{rel}:{lines[0]}", f"`{name}` is read in {f.short} on a path where it was never bound (UnboundLocalError can leave {what}): a branch chain that binds it does not cover every input" + (f" - the {code} regexes admit payload lengths {sorted(lens)}" if lens else ""))
     return n
+
+
+# ---- folding an arithmetic/boolean expression over given values of its free terms (finite constant folding of source) ----------
+
+
+class Unfoldable(Exception):
+    pass
+
+
+def fold_expr(fn_node: ast.AST, e: ast.AST, env: dict[str, Any], consts: Any = None, f: Any = None, depth: int = 0) -> Any:
+    """Value of `e` when every sub-expression whose text is a key of `env` has that value; locals are copy-propagated; only
+    arithmetic, comparisons, boolean operators, conditional expressions and min/max/int/round/abs are understood."""
+    import math
+
+    if depth > 16:
+        raise Unfoldable("depth")
+    txt = norm(e)
+    if txt in env:
+        return env[txt]
+    if isinstance(e, ast.Constant):
+        return e.value
+    if isinstance(e, ast.Name):
+        d = single_defs(fn_node).get(e.id) if fn_node is not None else None
+        if d is not None:
+            return fold_expr(fn_node, d, env, consts, f, depth + 1)
+    if isinstance(e, (ast.Name, ast.Attribute)) and consts is not None and f is not None:
+        try:
+            v = consts.eval_in(f, e)
+            if isinstance(v, (int, float, str, bool)) or v is None:
+                return v
+        except Exception:  # noqa: BLE001
+            pass
+        raise Unfoldable(txt)
+    if isinstance(e, ast.UnaryOp):
+        v = fold_expr(fn_node, e.operand, env, consts, f, depth + 1)
+        return -v if isinstance(e.op, ast.USub) else (not v if isinstance(e.op, ast.Not) else +v)
+    if isinstance(e, ast.BinOp):
+        a, b = fold_expr(fn_node, e.left, env, consts, f, depth + 1), fold_expr(fn_node, e.right, env, consts, f, depth + 1)
+        ops = {ast.Add: lambda: a + b, ast.Sub: lambda: a - b, ast.Mult: lambda: a * b, ast.Div: lambda: a / b, ast.FloorDiv: lambda: a // b, ast.Mod: lambda: a % b, ast.Pow: lambda: a**b, ast.LShift: lambda: a << b, ast.RShift: lambda: a >> b, ast.BitAnd: lambda: a & b, ast.BitOr: lambda: a | b}
+        if type(e.op) not in ops:
+            raise Unfoldable(txt)
+        return ops[type(e.op)]()
+    if isinstance(e, ast.BoolOp):
+        res = None
+        for v0 in e.values:
+            res = fold_expr(fn_node, v0, env, consts, f, depth + 1)
+            if isinstance(e.op, ast.And) and not res:
+                return res
+            if isinstance(e.op, ast.Or) and res:
+                return res
+        return res
+    if isinstance(e, ast.IfExp):
+        return fold_expr(fn_node, e.body if fold_expr(fn_node, e.test, env, consts, f, depth + 1) else e.orelse, env, consts, f, depth + 1)
+    if isinstance(e, ast.Compare):
+        left = fold_expr(fn_node, e.left, env, consts, f, depth + 1)
+        for op, c in zip(e.ops, e.comparators):
+            right = fold_expr(fn_node, c, env, consts, f, depth + 1)
+            ok = {ast.Lt: lambda: left < right, ast.LtE: lambda: left <= right, ast.Gt: lambda: left > right, ast.GtE: lambda: left >= right, ast.Eq: lambda: left == right, ast.NotEq: lambda: left != right, ast.Is: lambda: left is right, ast.IsNot: lambda: left is not right}.get(type(op))
+            if ok is None:
+                raise Unfoldable(txt)
+            if not ok():
+                return False
+            left = right
+        return True
+    if isinstance(e, ast.Call) and norm(e.func) in ("min", "max", "int", "float", "round", "abs", "math.ceil", "math.floor") and not e.keywords:
+        a = [fold_expr(fn_node, x, env, consts, f, depth + 1) for x in e.args]
+        return {"min": min, "max": max, "int": lambda *v: int(v[0]), "float": lambda *v: float(v[0]), "round": round, "abs": lambda *v: abs(v[0]), "math.ceil": lambda *v: math.ceil(v[0]), "math.floor": lambda *v: math.floor(v[0])}[norm(e.func)](*a)
+    raise Unfoldable(txt)
